@@ -34,7 +34,7 @@ Definition Codec_rnd53 (m e : Z) : Codec_sf :=
   let r := m mod 2 ^ sh in
   let half := 2 ^ (sh - 1) in
   let q' := if (half <? r) || ((r =? half) && Z.odd q) then q + 1 else q in
-  (q', e + sh).
+  if q' =? 2 ^ 53 then (2 ^ 52, e + sh + 1) else (q', e + sh).      (* the round-up carried into the next binade *)
 
 Definition Codec_fmul (a b : Codec_sf) : Codec_sf := Codec_rnd53 (fst a * fst b) (snd a + snd b).
 Definition Codec_fadd (a b : Codec_sf) : Codec_sf :=
